@@ -123,8 +123,9 @@ def do_two_frames(l1, l2, sess, p, cut):
             and src.peek() is None)
 
 
-define(globals(), 'C02', 'two_frames_one_cut', ['l1', 'l2', 'sess', 'p0', 'p1', 'cut'], "return do_two_frames(l1, l2, sess, [p0, p1], cut)",
-       ['0 <= l1 <= 2 and 0 <= l2 <= 2 and 0 <= sess < 0xFFFFFFFF and 0 <= p0 <= 255 and 0 <= p1 <= 255 and 0 <= cut'],
+for _l1 in (0, 1, 2):
+  define(globals(), 'C02', 'two_frames_one_cut_len%d' % _l1, ['l2', 'sess', 'p0', 'p1', 'cut'], "return do_two_frames(%d, l2, sess, [p0, p1], cut)" % _l1,
+       ['0 <= l2 <= 2 and 0 <= sess < 0xFFFFFFFF and 0 <= p0 <= 255 and 0 <= p1 <= 255 and 0 <= cut'],
        timeout=1800, path_timeout=120, drives=AUTOMATA,
        bounds='two frames (payloads 0..2 bytes each) coalesced and cut at every position: consecutive parses from one source return frame 1 '
               '(exactly 24+len bytes) then frame 2, nothing lost or duplicated', outside='')
@@ -176,11 +177,11 @@ def do_truncate(v, c, t, cut):
     return ok
 
 
-for _lo, _hi in ((0, 30), (30, 60), (60, 90), (90, 125), (125, 161)):
+for _lo, _hi in ((0, 20), (20, 40), (40, 60), (60, 80), (80, 100), (100, 120), (120, 140), (140, 161)):
   define(globals(), 'C02', 'truncation_offsets_%03d_%03d' % (_lo, _hi), ['v', 'c', 't'], "return do_truncate(v, c, %d + t, 0)" % _lo,
        ['-32768 <= v <= 32767 and 0 <= c <= 255 and 0 <= t < %d' % (_hi - _lo)], timeout=2400, path_timeout=300, drives=SRV_DRIVES,
        stubs=['network.recv -> scripted chunks then EOF', 'conn -> recorder', 'misc.timer -> counter', 'random -> counter', 'main.apidict (per-connection stats) -> dotdict'],
-       symbolic=['t: EVERY truncation offset in [%d, %d) of the 160-byte request stream (the 5 shards cover 0..160)' % (_lo, _hi), 'v: the written value', 'c: a sender context byte'],
+       symbolic=['t: EVERY truncation offset in [%d, %d) of the 160-byte request stream (the 8 shards cover 0..160)' % (_lo, _hi), 'v: the written value', 'c: a sender context byte'],
        bounds='request stream [Register, Write Tag A[1]=v, Read Tag A[0-3]] (160 bytes) through the real enip_srv_tcp receive loop, connection '
               'ending after every byte offset: replies == complete frames, the request processor is never invoked on a partial frame, tag changed '
               'iff the write frame is complete, handler raises iff a frame is partial, socket closed, stats entry removed',
